@@ -1352,4 +1352,60 @@ theorem foldl_file (o : Opts) (hdr0 : List Str) (f : List GLine) (h : fileOk o h
 
 end Chars
 
+/-! ### lookups in a parsed row -/
+
+theorem dget_zip_map {β γ : Type} (g : Str → γ → β) (ks : List Str) (vs : List γ) (hn : ks.Nodup)
+    (i : Nat) (hi : i < ks.length) :
+    dget ((ks.zip vs).map (fun kv => (kv.1, g kv.1 kv.2))) ks[i] = (vs[i]?).map (g ks[i]) := by
+  induction ks generalizing vs i with
+  | nil => simp at hi
+  | cons k r ih =>
+    simp only [List.nodup_cons] at hn
+    cases vs with
+    | nil => simp [dget]
+    | cons v vr =>
+      cases i with
+      | zero => simp [dget]
+      | succ j =>
+        have hj : j < r.length := by simpa using hi
+        have hne : ¬ k = r[j] := fun e => hn.1 (e ▸ List.getElem_mem hj)
+        simp only [List.zip_cons_cons, List.map_cons, dget, List.getElem_cons_succ, hne, if_false,
+          List.getElem?_cons_succ]
+        exact ih vr hn.2 j hj
+
+theorem dkeys_zip_map {β γ : Type} (g : Str → γ → β) (ks : List Str) (vs : List γ) :
+    (dkeys ((ks.zip vs).map (fun kv => (kv.1, g kv.1 kv.2)))).Sublist ks := by
+  induction ks generalizing vs with
+  | nil => simp [dkeys]
+  | cons k r ih =>
+    cases vs with
+    | nil => simp [dkeys]
+    | cons v vr =>
+      simp only [List.zip_cons_cons, List.map_cons, dkeys] at ih ⊢
+      exact List.Sublist.cons₂ _ (ih vr)
+
+theorem getD_pad (n : Nat) (l : List Str) (j : Nat) : ((pad n l)[j]?).getD [] = (l[j]?).getD [] := by
+  unfold pad
+  by_cases h : j < l.length
+  · rw [List.getElem?_append_left h]
+  · rw [List.getElem?_append_right (by omega)]
+    have : l[j]? = none := List.getElem?_eq_none (by omega)
+    rw [this]
+    by_cases h2 : j - l.length < n - l.length
+    · simp [List.getElem?_replicate, h2]
+    · simp [List.getElem?_replicate, h2]
+
+theorem headD_pad (n : Nat) (l : List Str) : (pad n l).headD [] = l.headD [] := by
+  cases l with
+  | nil => unfold pad; cases n <;> simp [List.replicate]
+  | cons a r => rfl
+
+theorem dget_entryOf {β : Type} (conv : Str → Str → β) (H v : List Str) (hn : H.tail.Nodup)
+    (i : Nat) (hi : i < H.tail.length) :
+    dget (entryOf conv H v) H.tail[i] = (v.tail[i]?).map (conv H.tail[i]) := by
+  unfold entryOf mkDict
+  rw [dget_dictUpdate_nodup _ _ _ ((dkeys_zip_map conv H.tail v.tail).nodup hn), dget_zip_map conv _ _ hn i hi]
+  cases (v.tail[i]?).map (conv H.tail[i]) <;> rfl
+
+
 end Biom.C18
